@@ -131,7 +131,8 @@ type RunObs struct {
 type StopObs struct {
 	N           int    `json:"n"`
 	At          int    `json:"at"`
-	DuringShut  bool   `json:"duringShut"` // delivered while a Shutdown of the runner was in progress
+	DuringShut  bool   `json:"duringShut"` // delivered while a Shutdown of the (current) runner was in progress
+	ByShutdown  bool   `json:"byShutdown"` // delivered while a Shutdown was in progress (kept across restarts)
 	BegunBefore []bool `json:"begunBefore"`
 	OpenBefore  []bool `json:"openBefore"`
 }
@@ -459,6 +460,7 @@ func (w *world) evRunnerCancel(f *fakeRunner, first bool) {
 	if s.N == 1 {
 		s.At = w.nowMs()
 		s.DuringShut = w.st.Shut == "begun"
+		s.ByShutdown = s.DuringShut
 		for i, r := range w.st.Runs[ji.idx-1] {
 			s.BegunBefore[i] = r.Begun > 0
 			s.OpenBefore[i] = r.Open
